@@ -62,6 +62,10 @@ pub struct K18 {
     /// radar runs with `--airports` naming a file with two airports in the far corners of the map
     #[serde(default)]
     pub airports: bool,
+    /// the backlog (`bulk`) consists of position reports of an aircraft flying circles inside the
+    /// view: one aircraft with thousands of track points on the map
+    #[serde(default)]
+    pub bulk_orbit: bool,
 }
 
 fn default_rx() -> (f64, f64) {
@@ -153,7 +157,7 @@ fn generate_two_lives(rng: &mut Rng) -> K18 {
         KEvent { at_us: 1_800_000, ev: key("F1") },
         KEvent { at_us: 2_000_000, ev: key("c:q") },
     ];
-    K18 { cols: 120, rows: 40, filter_time, locations: vec![("RX".to_string(), 0.0, 0.0)], flags: vec![], lines, events_a, events_b, bulk: 0, many: false, rx, gpsd_cli_offset: None, gpsd_move: None, rust_log: None, tz: None, airports: false }
+    K18 { cols: 120, rows: 40, filter_time, locations: vec![("RX".to_string(), 0.0, 0.0)], flags: vec![], lines, events_a, events_b, bulk: 0, many: false, rx, gpsd_cli_offset: None, gpsd_move: None, rust_log: None, tz: None, airports: false, bulk_orbit: false }
 }
 
 pub fn generate(rng: &mut Rng, fault_free: bool) -> K18 {
@@ -262,7 +266,8 @@ pub fn generate(rng: &mut Rng, fault_free: bool) -> K18 {
             }
         }
     }
-    let bulk = if !fault_free && rng.chance(0.006) { 10_000 + rng.usize_below(400) } else { 0 };
+    let bulk_orbit = !fault_free && rng.chance(0.004);
+    let bulk = if bulk_orbit { 4_300 + rng.usize_below(400) } else if !fault_free && rng.chance(0.006) { 10_000 + rng.usize_below(400) } else { 0 };
     let filter_time = if bulk > 0 || many { 1_000_000 } else { filter_time };
     if bulk > 0 {
         // the backlog needs one main-loop iteration (>= 10 ms) per line
@@ -425,7 +430,7 @@ pub fn generate(rng: &mut Rng, fault_free: bool) -> K18 {
     let tz = if !fault_free && rng.chance(0.4) { Some((*rng.pick(&["EST5EDT", "PST8PDT", "<-03>3", "<+0530>-5:30", "JST-9", "America/New_York", "<-11>11", "<+13>-13", "UTC0"])).to_string()) } else { None };
     let airports = !fault_free && !(many || excursion) && rng.chance(0.25);
     let gpsd_move = if gpsd_cli_offset.is_some() && rng.chance(0.4) && lines.windows(2).all(|w| w[0].0 != w[1].0) { Some(*rng.pick(&[(0.1, 0.2), (-0.2, 0.15), (0.05, -0.3), (-0.25, -0.1), (0.0, 0.3), (0.25, 0.0)])) } else { None };
-    K18 { cols, rows, filter_time, locations, flags, lines, events_a, events_b, bulk, many: many || excursion, rx, gpsd_cli_offset, gpsd_move, rust_log, tz, airports }
+    K18 { cols, rows, filter_time, locations, flags, lines, events_a, events_b, bulk, many: many || excursion, rx, gpsd_cli_offset, gpsd_move, rust_log, tz, airports, bulk_orbit }
 }
 
 const GPSD_LEAD_US: u64 = 300_000;
@@ -448,6 +453,12 @@ pub fn compile(sc: &K18) -> KChild {
                 1 | 2 => {
                     let (yz, xz) = wire::cpr_encode(sc.rx.0 + 0.1, sc.rx.1 + 0.1, i == 2);
                     wire::me_airborne_position(11, 0, 0, wire::ac12_q(12_000), false, i == 2, yz, xz)
+                }
+                _ if sc.bulk_orbit => {
+                    let th = 0.004 * i as f64;
+                    let f = sc.rx.0.to_radians().cos() / 35.0f64.to_radians().cos();
+                    let (yz, xz) = wire::cpr_encode(sc.rx.0 + (0.1 + 0.12 * th.sin()) * f, sc.rx.1 + 0.1 + 0.12 * th.cos(), i % 2 == 0);
+                    wire::me_airborne_position(11, 0, 0, wire::ac12_q(12_000), false, i % 2 == 0, yz, xz)
                 }
                 _ => wire::me_velocity(1, 0, wire::sub_ground_speed(0, 1 + (i % 900) as u16, 0, 1 + (i * 7 % 900) as u16), 0, 0, 1 + (i % 300) as u16, 0, 3),
             };
@@ -900,7 +911,7 @@ pub fn execute(sc: &K18) -> Outcome {
             continue;
         }
         if sc.bulk > 0 {
-            out.probe("judged_after_backlog_of_10000_lines");
+            out.probe(if sc.bulk_orbit { "judged_with_a_track_of_over_4000_points_on_the_map" } else { "judged_after_backlog_of_10000_lines" });
         }
         let nev = ev_count_at_frame[&s.k];
         let in_phase_a = nev <= n_a;
@@ -1272,7 +1283,11 @@ pub fn shrink(sc: &K18) -> Vec<K18> {
         c.push(K18 { cols: 120, rows: 40, ..sc.clone() });
     }
     if sc.bulk > 0 {
-        c.push(K18 { bulk: 0, ..sc.clone() });
+        c.push(K18 { bulk: 0, bulk_orbit: false, ..sc.clone() });
+        if sc.bulk > 100 {
+            c.push(K18 { bulk: sc.bulk - sc.bulk / 8, ..sc.clone() });
+            c.push(K18 { bulk: sc.bulk - 1, ..sc.clone() });
+        }
     }
     if sc.rx != (35.0, -80.0) {
         // moving the receiver moves everything with it: re-encode is not possible here, so only
